@@ -226,7 +226,7 @@ theorem code_prepare_announces_placeholders (E : Mimic.Py.Env S) (cp : S → Nat
     without long data afterwards, with its text and parameter count unchanged: the next execution binds only what is
     supplied for it. -/
 theorem execute_discards_long_data_code (coldef : Nat → Nat → Mimic.Py.Bytes) (parse : Connection S → Mimic.Py.Bytes → Option (ComStmtExecute S))
-    (app : ComStmtExecute S → Option (ResultSet S)) (c : Connection S) (data : Mimic.Py.Bytes) (x : ComStmtExecute S)
+    (app : S → Option (ResultSet S)) (c : Connection S) (data : Mimic.Py.Bytes) (x : ComStmtExecute S)
     (hp : parse c data = some x) (c' : Connection S)
     (hrun : handle_stmt_execute coldef parse app c data = .ok c' ∨ handle_stmt_execute coldef parse app c data = .error c') :
     ∃ st, Mimic.Py.dictGet c'.prepared_stmts x.stmt.stmt_id = some st ∧ st.param_buffers = none ∧ st.sql = x.stmt.sql ∧
